@@ -29,7 +29,7 @@ Definition in_doc (d : docshape) (s : shape) : bool :=
   end.
 
 (* value constraints the docstrings / the property text put on the entries *)
-Inductive docvalue := AnyValue | AllPositive | CylSegValid.
+Inductive docvalue := AnyValue | AllPositive | CylSegValid | NonCoplanar.   (* NonCoplanar: a tetrahedron has a volume *)
 
 Record doc_row := mkDoc {
   d_class : string; d_attr : string;
@@ -54,7 +54,7 @@ Definition doc_table : list doc_row := [
   mkDoc "Cuboid" "dimension" (DVec 3) true AllPositive;
   mkDoc "Cylinder" "dimension" (DVec 2) true AllPositive;
   mkDoc "CylinderSegment" "dimension" (DVec 5) true CylSegValid;
-  mkDoc "Tetrahedron" "vertices" (DMat 4 3) true AnyValue;
+  mkDoc "Tetrahedron" "vertices" (DMat 4 3) true NonCoplanar;
   mkDoc "Triangle" "vertices" (DMat 3 3) true AnyValue;
   mkDoc "Polyline" "vertices" (DRows 2 3) true AnyValue;
   mkDoc "TriangularMesh" "vertices@init" (DRows 1 3) false AnyValue;
@@ -71,10 +71,17 @@ Definition sdoc_table : list sdoc_row := [
 ].
 
 (* shapes with an empty leading axis of the rows whose validator has no lower bound on the number of rows
-   (position paths, mesh vertices / faces): the known gap between the code and the documented format *)
+   (position paths, mesh vertices / faces): a gap between the code and the documented format as long as the code has
+   no guard for it (the guards are TRANSLATED flags: reshape_rejects_empty, mesh_rejects_empty) *)
 Definition gap_row (d : doc_row) : bool :=
-  match d_shape d with DVecOrPath _ => true | DRows k _ => k =? 1 | _ => false end.
+  match d_shape d with
+  | DVecOrPath _ => negb reshape_rejects_empty
+  | DRows k _ => (k =? 1) && negb mesh_rejects_empty
+  | _ => false end.
 Definition empty_rows (s : shape) : bool := match s with [m; _] => m =? 0 | _ => false end.
+(* likewise for values: coplanar tetrahedron vertices as long as the setter has no coplanarity guard *)
+Definition value_gap (d : doc_row) (vals : list Q) : bool :=
+  match d_value d with NonCoplanar => negb tetra_rejects_coplanar && coplanar4 vals | _ => false end.
 
 (* ------------------------------------------------------------------ lookup *)
 Definition row_is (c a : string) (r : setter_row) : bool :=
@@ -93,7 +100,12 @@ Definition row_cfg (r : setter_row) : option vcfg :=
 (* ------------------------------------------------------------------ shape acceptance of one attribute *)
 (* the validator's verdict on an array of shape s whose entries pass every value guard:
    check_array_shape with the row's configuration, then the vertex-count guard of VVertices *)
-Definition accepts_shape (r : setter_row) (s : shape) : res :=
+(* the guards against an empty array that sit behind the shape check *)
+Definition empty_guard (r : setter_row) (s : shape) : bool :=
+  match s_val r with VVector c => v_reshape c && reshape_rejects_empty && (size s =? 0) | _ => false end
+  || (String.eqb (s_class r) "TriangularMesh" && mesh_rejects_empty && match s with m :: _ => m =? 0 | [] => false end).
+
+Definition accepts_shape0 (r : setter_row) (s : shape) : res :=
   match s_val r with
   | VVector c => check_array_shape (v_dims c) (v_shape_m1 c) (v_length c) s
   | VVertices =>
@@ -104,6 +116,9 @@ Definition accepts_shape (r : setter_row) (s : shape) : res :=
   | VCylSeg => check_array_shape (v_dims cylseg_cfg) (v_shape_m1 cylseg_cfg) (v_length cylseg_cfg) s
   | _ => Crash
   end.
+
+Definition accepts_shape (r : setter_row) (s : shape) : res :=
+  match accepts_shape0 r s with Ok => if empty_guard r s then Bad else Ok | x => x end.
 
 (* ------------------------------------------------------------------ a whole assignment *)
 (* what `obj.<attr> = value` does for vector-like attributes: validator, then the rest of the setter body.
@@ -126,12 +141,26 @@ Definition init_pad (v : vout) : vout :=
   | _ => v
   end.
 
+(* guards on the validated array that are not part of check_format_input_vector:
+   - Tetrahedron.vertices: check_format_input_tetrahedron = the vector check (the row's configuration) followed by the
+     coplanarity guard (when the translated flag says the setter uses it);
+   - TriangularMesh._input_check: empty vertices / faces are rejected after both validators *)
+Definition post_guard (r : setter_row) (v : vout) : vout :=
+  match v with
+  | Stored (Some (s, vals)) =>
+      if row_is "Tetrahedron" "vertices" r && tetra_rejects_coplanar && coplanar4 vals then Rejected
+      else if String.eqb (s_class r) "TriangularMesh" && mesh_rejects_empty
+              && match s with m :: _ => m =? 0 | [] => false end then Rejected
+      else v
+  | _ => v
+  end.
+
 Definition assign_vec (r : setter_row) (inp : vinput) : vout :=
   let v := match run_validator (s_val r) inp with
            | Stored None => if s_post_uses r then Crashed else Stored None
            | x => x
            end in
-  if String.eqb (s_attr r) "position@init" then init_pad v else v.
+  post_guard r (if String.eqb (s_attr r) "position@init" then init_pad v else v).
 
 Definition assign_scalar (r : setter_row) (inp : sinput) : sout :=
   match s_val r with
@@ -167,7 +196,8 @@ Definition cylseg_ok (vals : list Q) : bool :=
   end.
 
 Definition value_ok (v : docvalue) (vals : list Q) : bool :=
-  match v with AnyValue => true | AllPositive => all_pos vals | CylSegValid => cylseg_ok vals end.
+  match v with AnyValue => true | AllPositive => all_pos vals | CylSegValid => cylseg_ok vals
+  | NonCoplanar => negb (coplanar4 vals) end.
 
 Definition doc_accepts (d : doc_row) (inp : vinput) : bool :=
   match inp with
